@@ -305,7 +305,8 @@ func (p *statsProcessor) processMeasureOperations(inputIQR *iqr.IQR) (*iqr.IQR, 
 			hasValuesFunc := valuesUsage[colName]
 			hasListFunc := listUsage[colName]
 			hasPercFunc := percUsage[colName]
-			if hasTsBasedOperations {
+			// an event that lacks the field provides neither its earliest nor its latest value
+			if hasTsBasedOperations && !values[i].IsNull() {
 				uintVal, err := tsVals[i].GetUIntValue()
 				if err != nil {
 					log.Errorf("qid=%v, statsProcessor.processMeasureOperations: cannot get uint value from %v col; err=%v", qid, colName, err)
